@@ -119,7 +119,7 @@ func checkC02(c *Ctx) {
 			}
 		}
 		if cal := ep.CalleeOf(call); cal != nil {
-			switch cal.Name() {
+			switch ep.RecName(cal) {
 			case "bindPathParams":
 				ls = append(ls, "P")
 			case "bindQueryParams":
@@ -268,7 +268,7 @@ func binderFailureArm(ep *EmittedPkg, lit *ast.FuncLit, name string) (bool, stri
 			return true
 		}
 		cal := ep.CalleeOf(call)
-		if cal == nil || cal.Name() != name {
+		if cal == nil || ep.RecName(cal) != name {
 			return true
 		}
 		pos = call.Pos()
@@ -293,7 +293,7 @@ func binderFailureArm(ep *EmittedPkg, lit *ast.FuncLit, name string) (bool, stri
 		wrote := false
 		ast.Inspect(ifs.Body, func(m ast.Node) bool {
 			if c2, ok := m.(*ast.CallExpr); ok {
-				if cal2 := ep.CalleeOf(c2); cal2 != nil && cal2.Name() == "writeErrorWithHandler" && len(c2.Args) >= 3 {
+				if cal2 := ep.CalleeOf(c2); cal2 != nil && ep.RecName(cal2) == "writeErrorWithHandler" && len(c2.Args) >= 3 {
 					if id, ok := ast.Unparen(c2.Args[2]).(*ast.Ident); ok && ep.Info.ObjectOf(id) == errObj {
 						wrote = true
 					}
